@@ -1880,6 +1880,10 @@ class SSHServerChannel(SSHChannel, Generic[AnyStr]):
                        subsystem: Optional[str] = None) -> bool:
         """Tell the session what type of channel is being requested"""
 
+        # Only one shell, exec or subsystem request can succeed per channel
+        if self._session_started:
+            return False
+
         forced_command = \
             cast(str, self._conn.get_certificate_option('force-command'))
 
